@@ -25,6 +25,8 @@ class StmtMixin:
     def st_Expr(self, st):
         if isinstance(st.value, ast.Constant):
             return
+        if isinstance(st.value, ast.Call):
+            st.value._result_unused = True          # expression statement: the value of the call flows nowhere
         self.ev(st.value)
 
     def st_Pass(self, st):
